@@ -13,6 +13,7 @@ import (
 	"fmt"
 	"os"
 	"path/filepath"
+	"runtime"
 	"strconv"
 	"strings"
 
@@ -193,6 +194,9 @@ func runHistory(tr *vutil.Trace, universe []txRec, nonces map[int]int, h []op) i
 		case "MarkEvict": // a block that evicts t without executing it
 			mark(tr, nil, []common.Hash{txs[o.T-1].Hash}, uint64(len(chain)+1))
 			chain = append(chain, nil)
+		case "Tick": // one pass of the container's ageing ticker
+			service.VerifPoolTick()
+			tr.Emit(map[string]interface{}{"event": "Tick", "state": project()})
 		case "UnMarkLast":
 			if len(chain) == 0 {
 				continue
@@ -221,6 +225,7 @@ func main() {
 	salt := flag.Int64("salt", 0, "")
 	sizes := flag.String("sizes", "", "comma-separated block sizes for the block-size boundary histories")
 	fullPool := flag.Bool("fullpool", false, "a reorg while the pool is at its size limit")
+	tickRaceN := flag.Int("tickrace", 0, "rounds of booking + reorg with the ageing ticker running alongside")
 	flag.Parse()
 	if *scratch == "" {
 		vutil.Fatalf("--scratch required")
@@ -280,6 +285,8 @@ func main() {
 				h = append(h, op{"Pack", 0})
 			case r < 15:
 				h = append(h, op{"PackMark", 0})
+			case r < 16 && rng.Intn(3) == 0:
+				h = append(h, op{"Tick", 0})
 			case r < 16:
 				h = append(h, op{"MarkOne", 1 + rng.Intn(len(universe))})
 			case r < 17:
@@ -335,8 +342,18 @@ func main() {
 			nh++
 		}
 	}
+	if *tickRaceN > 0 {
+		tickRace(tr, *tickRaceN)
+	}
 	if *fullPool {
 		fullPoolReorg(tr)
+		// expiry: pending transactions age with every tick and are dropped at the fifth; a booked
+		// and re-added one starts anew
+		universe := []txRec{{9, 0, 1}, {9, 0, 2}, {9, 0, 3}, {1, 0, 0}}
+		h := []op{{"Add", 1}, {"Tick", 0}, {"Add", 2}, {"Tick", 0}, {"Tick", 0}, {"MarkOne", 2}, {"Add", 3}, {"Tick", 0}, {"UnMarkLast", 0}, {"Tick", 0},
+			{"Pack", 0}, {"Add", 1}, {"Tick", 0}, {"Tick", 0}, {"Tick", 0}, {"Add", 4}, {"Tick", 0}, {"Tick", 0}, {"Pack", 0}}
+		calls += runHistory(tr, universe, map[int]int{1: 0, 9: 0}, h)
+		nh++
 	}
 	nconc := 0
 	if concAbs != "" {
@@ -400,6 +417,68 @@ func fullPoolReorg(tr *vutil.Trace) {
 		ev = append(ev, t.Hash)
 	}
 	pool.MarkExecuted(&types.BlockHeader{}, nil, nil, ev)
+}
+
+// tickRace: the container's ageing ticker runs on its own goroutine, outside the pool lock. In
+// every round one pending transaction is booked while ageing passes run from the moment the
+// executed record is written (gate mark.written) until the call returns; the block is then removed
+// by a reorg: the transaction must be pending again, not executed, and found by the lookups.
+func tickRace(tr *vutil.Trace, rounds int) {
+	newHistory(nil, map[int]int{9: 0})
+	lost, stillExecuted, lookupWrong := 0, 0, 0
+	for r := 0; r < rounds; r++ {
+		t := &types.Transaction{Type: types.TransactionTypeOperatorEvent, Source: senderAddr(9), Data: fmt.Sprintf("h%d-tick-%d;", histNo, r), RequestId: uint64(r + 1)}
+		t.Hash = t.GenHash()
+		pool.AddTransaction(t)
+		stop := make(chan struct{})
+		done := make(chan struct{})
+		started := false
+		service.VerifGate = func(point string, hash common.Hash) {
+			if point == "mark.written" && !started {
+				started = true
+				go func() {
+					defer close(done)
+					for {
+						select {
+						case <-stop:
+							return
+						default:
+							service.VerifPoolTick()
+						}
+					}
+				}()
+				runtime.Gosched()
+			}
+		}
+		rc := types.NewReceipt(nil, false, 0, 1, "", t.Source, "")
+		rc.TxHash = t.Hash
+		h := &types.BlockHeader{Height: 1, Hash: common.BytesToHash(common.Sha256([]byte(fmt.Sprintf("blk-tick-%d-%d", histNo, r))))}
+		pool.MarkExecuted(h, types.Receipts{rc}, []*types.Transaction{t}, nil)
+		service.VerifGate = nil
+		if started {
+			close(stop)
+			<-done
+		}
+		pool.UnMarkExecuted(&types.Block{Header: h, Transactions: []*types.Transaction{t}})
+		pending := false
+		for _, x := range pool.GetReceived() {
+			if x.Hash == t.Hash {
+				pending = true
+			}
+		}
+		if !pending {
+			lost++
+		}
+		if pool.GetExecuted(t.Hash) != nil {
+			stillExecuted++
+		}
+		if g, err := pool.GetTransaction(t.Hash); err != nil || g == nil || !pool.IsExisted(t.Hash) {
+			lookupWrong++
+		}
+		pool.MarkExecuted(&types.BlockHeader{}, nil, nil, []common.Hash{t.Hash})
+	}
+	tr.Emit(map[string]interface{}{"event": "TickRace", "rounds": rounds, "lost": lost, "stillExecuted": stillExecuted, "lookupWrong": lookupWrong,
+		"state": map[string]interface{}{"pending": []int{}, "executed": []bool{}, "existed": []bool{}, "found": []bool{}, "lookupSkipped": true}})
 }
 
 func boolInt(b bool) int {
